@@ -97,11 +97,10 @@ Print Assumptions C09_marker_layout.
    exactly the frame boundaries the sender flushed at - returns every serialised attribute's
    "name = value" text (ServerTime first if requested), in order and unchanged, private ones
    included, and the two type names.  Hypotheses: the rendered strings are NUL-free, do not start
-   with 0xAD and are shorter than 2^31 (true of rendered ClassAd expressions); a secret attribute's
-   string is shorter than MaxFrameSize - 9 (1 MiB); type names are type names or empty. *)
+   with 0xAD and are shorter than 2^31 (true of rendered ClassAd expressions; secrets of any size
+   below that, also spanning several sealed frames); type names are type names or empty. *)
 Theorem C09_receiver_reassembles : forall (c : config) (a : ad),
   opt_no_types (c_opts c) = false ->
-  secrets_small c (attrs_to_send c (ad_attrs a)) ->
   Forall (valid_str true) (ad_exprs c a) ->
   nul_free (ad_mytype a) -> nul_free (ad_targettype a) -> type_ok (ad_mytype a) -> type_ok (ad_targettype a) ->
   (Z.of_nat (length (ad_attrs a)) < 2 ^ 62)%Z ->
@@ -110,6 +109,19 @@ Theorem C09_receiver_reassembles : forall (c : config) (a : ad),
       (t1, MOk (ad_exprs c a, ad_mytype a, ad_targettype a)).
 Proof. exact marker_roundtrip. Qed.
 Print Assumptions C09_receiver_reassembles.
+
+(* REFUTED strict reading: "without the opt-in the NAME of a private attribute occurs nowhere in the
+   emitted bytes".  A public attribute is serialised as written; if its expression refers to a
+   private attribute (MyType = ClaimId) that name is in the bytes.  Witness: [ClaimId = "s";
+   MyType = ClaimId], options 0, plaintext stream; replayed on the real code by vh-c09 (known
+   finding name-in-public-expression).  What does hold is C09_noninterference: nothing emitted
+   depends on the private attributes themselves (their names as attributes, values, presence). *)
+Theorem C09_names_refuted :
+  exists (c : config) (a : ad) (n : bytes),
+    include_private c = false /\ In n (map fst (ad_attrs a)) /\ is_private_any n = true /\
+    infixb n (emitted (s_finish (put_ad c (sstate_init false false) a))) = true.
+Proof. exact names_refuted. Qed.
+Print Assumptions C09_names_refuted.
 
 (* With the opt-in (and no whitelist, current or unknown peer) every attribute is sent: the filter is not vacuous. *)
 Theorem C09_opt_in_sends_all : forall (c : config) (attrs : list attr) (a : attr),
